@@ -1,7 +1,8 @@
 #!/usr/bin/env python3
 """Import breaker outputs /tmp/seed-<id>/out/m<i> into /verif/seeded/<PROP>-m<i>/ and confirm them in a
 scratch worktree: the pinned suite passes with the change, the demo fails with it and passes without.
-Usage: tools/import_seeded.py <id> [...]   (e.g. c03)"""
+Usage: tools/import_seeded.py [--round <n>] <id> [...]   (e.g. c03; round 2 reads /tmp/seed2-<id>/out and
+numbers the changes after the ones already stored for that property)"""
 import json, os, shutil, subprocess, sys
 
 def sh(cmd, cwd=None, timeout=3600):
@@ -16,8 +17,13 @@ if not os.path.isdir(WT):
 else:
     sh("git checkout -q --detach $(git -C /repo rev-parse HEAD) && git checkout -- . && git clean -fdq", cwd=WT)
 
-for sid in sys.argv[1:]:
-    base = f"/tmp/seed-{sid}/out"
+argv = sys.argv[1:]
+rnd = ""
+if argv and argv[0] == "--round":
+    rnd = argv[1] if argv[1] != "1" else ""
+    argv = argv[2:]
+for sid in argv:
+    base = f"/tmp/seed{rnd}-{sid}/out"
     for m in sorted(os.listdir(base)):
         src = os.path.join(base, m)
         if not (os.path.isdir(src) and os.path.exists(os.path.join(src, "patch.diff")) and os.path.exists(os.path.join(src, "demo.rs"))):
@@ -29,6 +35,10 @@ for sid in sys.argv[1:]:
         prop = sid.upper()
         meta["property"] = prop
         name = f"{prop}-{m}"
+        if rnd:
+            have = [int(x.split("-m")[1]) for x in os.listdir("/verif/seeded") if x.startswith(prop + "-m")]
+            name = f"{prop}-m{max(have + [0]) + 1}"
+            meta["round"] = int(rnd)
         dst = f"/verif/seeded/{name}"
         feats = "experimental,test-util,multithreaded"
         if "verif-hooks" in json.dumps(meta) or "verif_hooks" in open(os.path.join(src, "demo.rs")).read():
